@@ -31,6 +31,12 @@ fn gen_raw(r: &mut Rng) -> RawCommand {
     for _ in 0..r.below(4) {
         c = c.argument(*r.pick(ARGS));
     }
+    // now and then a very long argument (a sticker value, a message, a URI): total line length around and well
+    // beyond the usual buffer sizes
+    if r.chance(1, 12) {
+        let n = *r.pick(&[4070usize, 4080, 4090, 4096, 4100, 8192, 10_000, 70_000]) + r.below(8);
+        c = c.argument("x".repeat(n));
+    }
     c
 }
 
@@ -144,6 +150,36 @@ impl C13 {
         }
     }
 
+    /// "An empty typed list writes nothing and yields an empty result" has no exception for a connection that has
+    /// already ended: nothing needs to be sent, so nothing can fail.
+    fn empty_list_on_dead_connection(&self, acc: &mut Acc, i: u64, variant: u64, seed: u64) {
+        let mut sc = Scenario::new("empty-list-after-the-connection-ended", mix(&[seed, 0x13e, i]));
+        sc.epilogue = false;
+        sc.world.fault = match variant % 2 {
+            0 => crate::sim::world::Fault::ServerCloseAt(ms(5)),
+            _ => crate::sim::world::Fault::ReadErrAfter(sc.world.greeting.len() as u64),
+        };
+        if variant > 2 {
+            sc.notifications = vec![(ms(2), vec!["player".into()])];
+        }
+        sc.callers.push((ms(50), vec![Step::Do(Req::TypedVec { n: 0, base: 5 }), Step::Do(Req::Raw { shape: 1 }), Step::Do(Req::TypedVec { n: 0, base: 5 })]));
+        let out = sess::run(&sc);
+        acc.inc("evaluations");
+        acc.inc("empty_lists_on_a_dead_connection");
+        let a = Analysis::new(&out);
+        if !out.panics.is_empty() || !out.hung.is_empty() {
+            acc.violation(i, None, format!("panic or hang: {:?} {:?}", out.panics, out.hung), sess::detail(&sc, &out));
+            return;
+        }
+        let calls = a.calls();
+        let empties = calls.iter().filter(|c| c.call.caller == 0 && c.desc.contains("TypedVec") && matches!(&c.end, Some((_, _, CallResult::Typed(v))) if v.is_empty())).count();
+        let wrote = a.units.iter().any(|u| matches!(u.kind, UnitKind::Single | UnitKind::List) && u.lines.iter().any(|l| !l.starts_with(b"vreq")));
+        if empties != 2 || wrote {
+            let got: Vec<String> = calls.iter().filter(|c| c.call.caller == 0).map(|c| format!("{} -> {}", c.desc, c.end.as_ref().map(|e| e.2.short()).unwrap_or_else(|| "pending".into()))).collect();
+            acc.violation(i, None, format!("an empty typed list on a connection that had already ended did not yield an empty result (or wrote something): {:?}", got), sess::detail(&sc, &out));
+        }
+    }
+
     fn session_case(&self, acc: &mut Acc, i: u64, arity: usize, rot: usize, vec_len: Option<usize>, seed: u64) {
         let mut r = Rng::keyed(&[seed, 13, i]);
         let mut sc = Scenario::new("typed-lists", mix(&[seed, i]));
@@ -232,7 +268,7 @@ impl Property for C13 {
     }
     fn cases(&self, cfg: &Cfg) -> u64 {
         // 64 tuple shapes + 21 vector lengths (x repetitions), offline raw framing
-        (64 + 21) * cfg.tier.pick(4, 20) + 1 + cfg.tier.pick(2_000, 40_000)
+        (64 + 21) * cfg.tier.pick(4, 20) + 5 + cfg.tier.pick(2_000, 40_000)
     }
     fn run_case(&self, cfg: &Cfg, i: u64, acc: &mut Acc) {
         let reps = cfg.tier.pick(4, 20);
@@ -250,13 +286,17 @@ impl Property for C13 {
             self.typed_vec_offline(acc, i);
             return;
         }
+        if i > sess_cases && i <= sess_cases + 4 {
+            self.empty_list_on_dead_connection(acc, i, i - sess_cases, cfg.seed);
+            return;
+        }
         let mut r = Rng::keyed(&[cfg.seed, 13, i]);
         self.raw_framing(acc, i, &mut r);
     }
     fn meta(&self, _cfg: &Cfg, _acc: &Acc) -> Meta {
         Meta {
             level: "exploration",
-            rule: "(i) framing: raw lists of 1-50 commands with arguments needing quotes, built through new/command/add/extend, must render (blocking and async connection) to exactly command_list_ok_begin + the individually rendered lines in order + command_list_end, a list of one command to the bare line; Vec command lists of length 0-20: None when empty; (ii) pairing, EXHAUSTIVE over tuple arities 1-8 x all 8 rotations of 8 distinguishable command types (update, addid, sticker get, count, listplaylistinfo, rescan, status, ping) and Vec lengths 0-20: executed through Client::command_list in sessions against the simulated server whose reply to each command carries a token derived from the command's own argument, with chopped replies, read caps, a concurrent caller and notifications; result i must carry token i (a misplaced frame of another type fails conversion), the request must have been written as one batch / bare line / nothing for the empty list; non-trivial = list with >=2 commands with pairwise distinct tokens; distinct by (shape, tokens)".into(),
+            rule: "(i) framing: raw lists of 1-50 commands with arguments needing quotes and, in one command of twelve, a 4-70 KB argument, built through new/command/add/extend, must render (blocking and async connection) to exactly command_list_ok_begin + the individually rendered lines in order + command_list_end, a list of one command to the bare line; Vec command lists of length 0-20: None when empty; an empty typed list issued after the connection has ended (clean close / read error) still yields an empty result and writes nothing; (ii) pairing, EXHAUSTIVE over tuple arities 1-8 x all 8 rotations of 8 distinguishable command types (update, addid, sticker get, count, listplaylistinfo, rescan, status, ping) and Vec lengths 0-20: executed through Client::command_list in sessions against the simulated server whose reply to each command carries a token derived from the command's own argument, with chopped replies, read caps, a concurrent caller and notifications; result i must carry token i (a misplaced frame of another type fails conversion), the request must have been written as one batch / bare line / nothing for the empty list; non-trivial = list with >=2 commands with pairwise distinct tokens; distinct by (shape, tokens)".into(),
             nontrivial_set: "nontrivial",
             assumptions: vec!["simulated server (token replies) as in C01".into(), "the individual rendering of each command is C15's subject".into()],
             exhaustive: Some(true),
